@@ -6,7 +6,7 @@ SPEC = dict(
     prop='C05',
     corr=[('check-cases', 6, 16, ['-n', '5', '-na', '80', '-profile', 'pure'], ('_dc', '_acc'))],
     oracles=[('check-oracle',
-              [['-n', '150', '-seed', '{seed}', '-profile', 'pure', '-shrinkms', '300'] for _ in range(4)],
+              [['-n', '120', '-seed', '{seed}', '-profile', 'pure', '-shrinkms', ms] for ms in ('2', '10', '50', '300')],
               [['-n', '600', '-seed', '{seed}', '-profile', 'pure', '-shrinkms', '2000'] for _ in range(16)])],
     oracle_props=['C05'],
     partial=['tracebacks are capped at 32 frames in the code; model sites are unbounded (harness programs stay below the cap)',
